@@ -10,5 +10,6 @@ CONSTANTS
   Groups = {}
   MaxTok = 5
   FxAll = TRUE
+  Shared = FALSE
 INVARIANTS Refines
 CHECK_DEADLOCK FALSE
